@@ -282,7 +282,8 @@ def _media_hash_xml_element(media_hash: MHLMediaHash):
     """builds and returns one <hash> element for a given MediaHash object"""
 
     path_element = E.path(convert_local_path_to_posix(media_hash.path))
-    if media_hash.file_size:
+    # an empty file has the size 0, which must be written as well
+    if media_hash.file_size is not None:
         path_element.attrib["size"] = str(media_hash.file_size)
     if media_hash.last_modification_date:
         path_element.attrib["lastmodificationdate"] = datetime_isostring(media_hash.last_modification_date)
